@@ -21,8 +21,12 @@ RULE = (
     "annotator-manageable key (enabled or not) raises ValueError, a custom key is accepted. "
     "Distinct = (enable set, disable set, recompute) switches + protected-key situations"
 )
-ASSUMPTIONS = ["track_id / lineage_id are toggled only in edit-free windows (disable, check, "
-               "re-enable with recomputation), since edits need them"]
+ASSUMPTIONS = ["track_id is toggled only in edit-free windows (disable, check, re-enable with "
+               "recomputation), since edits need it; lineage_id is also switched off alone "
+               "for windows of 2-6 edits (the annotator supports that), its stored values must "
+               "then stay untouched",
+               "3-D ellipse_axis_radii runs on masks containing a 2x2x2 cube; a feature op or "
+               "edit that the library refuses with 'math domain error' is not judged"]
 
 
 def make_monitors():
@@ -30,29 +34,32 @@ def make_monitors():
 
 
 class SwitchOpGen(OpGen):
-    pending = None
-
-    def next(self, tracks):
-        if self.pending is not None:
-            op, self.pending = self.pending, None
-            return op
-        return super().next(tracks)
-
     def gen_features(self, tracks):
         rng = self.rng
-        avail = sorted(tracks.annotators.all_features)
         tk, lk = tracks.features.tracklet_key, tracks.features.lineage_key
-        free = [k for k in avail if k not in (tk, lk)]
-        if self.cfg.ndim == 4:
-            free = [k for k in free if k != "ellipse_axis_radii"]
-        if self.cfg.ndim == 3 and self.cfg.scale == "aniso":
-            free = [k for k in free if k not in ("perimeter", "circularity")]
+        free = self.toggleable(tracks)
         r = rng.random()
-        if r < 0.12:
+        if r < 0.10:
             # edit-free window for the id features
             ks = rng.choice([[tk], [lk], [tk, lk]])
-            self.pending = {"op": "features", "enable": ks, "recompute": True}
+            self.queue = [lambda tr: {"op": "features", "enable": ks, "recompute": True}]
             return {"op": "features", "disable": ks}
+        if r < 0.18:
+            # the lineage feature alone is switched off while edits go on (the annotator
+            # supports this: only the tracklet feature gates its updates); its stored values
+            # must then stay as they are, whatever joins / splits lineages
+            def edit(tr):
+                for _ in range(20):
+                    kind = rng.choice(["add_edge", "add_edge", "delete_edge", "delete_edge",
+                                       "delete_node", "add_node", "undo", "redo", "swap"])
+                    op = getattr(self, "gen_" + kind)(tr)
+                    if op is not None:
+                        return op
+                return {"op": "undo"}
+
+            self.queue = [edit] * rng.randint(2, 6) + [
+                lambda tr: {"op": "features", "enable": [lk], "recompute": True}]
+            return {"op": "features", "disable": [lk]}
         if not free:
             return {"op": "features", "enable": ["no_such_feature"]}
         ks = rng.sample(free, rng.randint(1, min(3, len(free))))
@@ -66,11 +73,11 @@ class SwitchOpGen(OpGen):
         return {"op": "features", "disable": ks}
 
 
-WEIGHTS = {"features": 7, "update_attrs": 3, "paint": 5}
+WEIGHTS = {"features": 7, "update_attrs": 3, "paint": 5, "scenario": 0.7, "prim_seg": 1.2}
 
 
 def cfg_fn(rng):
-    cfg = gen.random_config(rng, p3d=0.15)
+    cfg = gen.random_config(rng, p3d=0.15, ellipse3d=True)
     cfg.custom = False
     return cfg
 
@@ -80,13 +87,8 @@ def plan(tier, seed):
 
 
 def run_shard(spec):
-    orig = session.OpGen
-    session.OpGen = SwitchOpGen
-    try:
-        return common.run_sessions(spec, PROP, make_monitors, cfg_fn, nsteps=(15, 35),
-                                   weights=WEIGHTS, refusal_rate=1.0)
-    finally:
-        session.OpGen = orig
+    return common.run_sessions(spec, PROP, make_monitors, cfg_fn, nsteps=(15, 35),
+                               weights=WEIGHTS, refusal_rate=1.0, opgen=SwitchOpGen)
 
 
 def floors(tier):
